@@ -148,3 +148,38 @@ pub fn c19a_spans_3() { spans::<3>() }
 #[kani::proof]
 #[kani::unwind(3)]
 pub fn c19a_spans_empty() { spans::<0>() }
+
+/// Re-lexed text (interpolation results) may be longer than the span it is attributed to: `Lexer::new_from_string`
+/// must then fall back to the whole span. Concrete multi-byte texts, every span length 0..=8, every cursor/start.
+fn relex_guard(src: &str, n_tokens: usize) {
+    let l: u32 = kani::any();
+    kani::assume(l <= 8);
+    let mut lx = VLexer::from_str(src, span(l));
+    assert!(lx.len() == n_tokens);
+    let cursor: usize = kani::any();
+    kani::assume(cursor <= n_tokens);
+    lx.set_cursor(cursor);
+    let start: usize = kani::any();
+    kani::assume(start <= cursor);
+    let check = |sp| {
+        let (lo, hi) = span_bounds(sp);
+        assert!(lo >= 1 && lo <= hi && hi <= 1 + l, "C19a: a span of re-lexed text lies outside the span it is attributed to");
+    };
+    check(lx.current_span());
+    check(lx.prev_span());
+    check(lx.span_from(start));
+    kani::cover!((src.len() as u32) > l, "text_longer_than_span");
+    kani::cover!((src.len() as u32) <= l, "text_fits");
+    kani::cover!(true, "end");
+    core::mem::forget(lx);
+}
+
+#[kani::proof]
+#[kani::unwind(8)]
+pub fn c19a_relex_2byte_then_ascii() { relex_guard("\u{e9}a", 2) }
+#[kani::proof]
+#[kani::unwind(8)]
+pub fn c19a_relex_ascii_then_3byte() { relex_guard("a\u{65e5}", 2) }
+#[kani::proof]
+#[kani::unwind(8)]
+pub fn c19a_relex_two_wide() { relex_guard("\u{e9}\u{1F600}", 2) }
